@@ -130,7 +130,7 @@ namespace foonathan
                 auto& pool = pools_.get(node_size);
                 if (pool.empty())
                 {
-                    auto block = reserve_memory(pool, def_capacity());
+                    auto block = reserve_memory(pool, reserve_capacity(pool));
                     pool.insert(block.memory, block.size);
                 }
 
@@ -151,7 +151,7 @@ namespace foonathan
                 auto& pool = pools_.get(node_size);
                 if (pool.empty())
                 {
-                    try_reserve_memory(pool, def_capacity());
+                    try_reserve_memory(pool, reserve_capacity(pool));
                     return pool.empty() ? nullptr : pool.allocate();
                 }
                 else
@@ -180,7 +180,7 @@ namespace foonathan
                 if (!mem)
                 {
                     // reserve more memory
-                    auto block = reserve_memory(pool, def_capacity());
+                    auto block = reserve_memory(pool, reserve_capacity(pool));
                     pool.insert(block.memory, block.size);
 
                     mem = pool.allocate(count * node_size);
@@ -222,7 +222,7 @@ namespace foonathan
                 auto& pool = pools_.get(node_size);
                 if (pool.empty())
                 {
-                    try_reserve_memory(pool, def_capacity());
+                    try_reserve_memory(pool, reserve_capacity(pool));
                     return pool.empty() ? nullptr : pool.allocate(count * node_size);
                 }
                 else
@@ -338,6 +338,16 @@ namespace foonathan
                 auto usable = arena_.current_block().size - 2 * detail::debug_fence_size
                               - detail::max_alignment;
                 return usable / pools_.size();
+            }
+
+            // the default reservation for a free list, but at least room for one of its nodes:
+            // buckets round node sizes up and small node lists put a chunk header in front
+            std::size_t reserve_capacity(const typename pool_type::type& pool) const noexcept
+            {
+                auto capacity = def_capacity();
+                while (pool.usable_size(capacity) < pool.node_size())
+                    capacity += pool.node_size();
+                return capacity;
             }
 
             detail::fixed_memory_stack allocate_block()
